@@ -4,6 +4,7 @@
   specification `reach_spec`.
 -/
 import Mathlib.Logic.Relation
+import Mathlib.Tactic.Ring
 import Spydr.Hier.ModelReach
 
 namespace Spydr.Hier.Reach
@@ -149,5 +150,98 @@ theorem reach_spec (succ : α → List α) (f : Nat) (init : List α)
     exact go_sound succ f init [] init (fun y hy => ⟨y, hy, Relation.ReflTransGen.refl⟩) (by simp) x hx
   · rintro ⟨i, hi, hr⟩
     exact go_complete succ f init hfin i hi x hr
+
+/-! ## fuel sufficiency -/
+
+/-- work still to do: one unit per stacked node, `1 + deg` per node of the universe not yet visited -/
+def pot (succ : α → List α) (U : List α) (stack vis : List α) : Nat :=
+  stack.length + ((U.filter (fun x => decide (x ∉ vis))).map (fun x => 1 + (succ x).length)).sum
+
+theorem sum_filter_split' (g : α → Nat) (x : α) (p q : α → Bool) (hpx : p x = true) (hqx : q x = false)
+    (hpq : ∀ y, y ≠ x → q y = p y) :
+    ∀ (U : List α), U.Nodup → x ∈ U → ((U.filter p).map g).sum = g x + ((U.filter q).map g).sum
+  | [], _, hm => by cases hm
+  | a :: U, hnd, hm => by
+    rw [List.nodup_cons] at hnd
+    rcases List.mem_cons.mp hm with rfl | hm'
+    · have h1 : U.filter q = U.filter p := by
+        apply List.filter_congr
+        intro y hy
+        exact hpq y (fun h => hnd.1 (h ▸ hy))
+      rw [List.filter_cons, List.filter_cons, hpx, hqx, h1]
+      simp
+    · have hax : a ≠ x := fun h => hnd.1 (h ▸ hm')
+      have ih := sum_filter_split' g x p q hpx hqx hpq U hnd.2 hm'
+      rw [List.filter_cons, List.filter_cons, hpq a hax]
+      cases hp : p a
+      · simpa using ih
+      · simp only [if_true, List.map_cons, List.sum_cons, ih]
+        omega
+
+theorem sum_filter_split (g : α → Nat) (x : α) (vis : List α) (hx : x ∉ vis) (U : List α) (hU : U.Nodup)
+    (hm : x ∈ U) :
+    ((U.filter (fun y => decide (y ∉ vis))).map g).sum =
+      g x + ((U.filter (fun y => decide (y ∉ x :: vis))).map g).sum := by
+  apply sum_filter_split' g x _ _ _ _ _ U hU hm
+  · simpa using hx
+  · simp
+  · intro y hy
+    simp [hy]
+
+/-- **fuel sufficiency**: over a finite, successor-closed universe the work list empties within
+    `pot` steps. -/
+theorem go_finished (succ : α → List α) (U : List α) (hU : U.Nodup)
+    (hcl : ∀ x ∈ U, ∀ y ∈ succ x, y ∈ U) :
+    ∀ (f : Nat) (stack vis : List α), (∀ x ∈ stack, x ∈ U) → pot succ U stack vis ≤ f →
+      (go succ f stack vis).2 = true
+  | 0, stack, vis, _, hf => by
+    simp only [go]
+    unfold pot at hf
+    have : stack.length = 0 := by omega
+    simp [List.length_eq_zero_iff.mp this]
+  | f+1, [], vis, _, _ => by simp [go]
+  | f+1, x :: st, vis, hs, hf => by
+    simp only [go]
+    have hxU : x ∈ U := hs x List.mem_cons_self
+    have hst : ∀ y ∈ st, y ∈ U := fun y hy => hs y (List.mem_cons_of_mem _ hy)
+    split
+    · apply go_finished succ U hU hcl f st vis hst
+      unfold pot at hf ⊢
+      simp only [List.length_cons] at hf
+      omega
+    · rename_i hxv
+      apply go_finished succ U hU hcl f (succ x ++ st) (x :: vis)
+      · intro y hy
+        rcases List.mem_append.mp hy with h | h
+        · exact hcl x hxU y h
+        · exact hst y h
+      · unfold pot at hf ⊢
+        rw [sum_filter_split (fun x => 1 + (succ x).length) x vis hxv U hU hxU] at hf
+        simp only [List.length_cons, List.length_append] at hf ⊢
+        omega
+
+/-- a cruder bound on the potential: every node of the universe counted in full -/
+theorem pot_le (succ : α → List α) (U stack vis : List α) (B : Nat) (hB : ∀ x ∈ U, (succ x).length ≤ B) :
+    pot succ U stack vis ≤ stack.length + U.length * (1 + B) := by
+  unfold pot
+  have h1 : ((U.filter (fun x => decide (x ∉ vis))).map (fun x => 1 + (succ x).length)).sum ≤
+      (U.filter (fun x => decide (x ∉ vis))).length * (1 + B) := by
+    have : ∀ l : List α, (∀ x ∈ l, x ∈ U) → (l.map (fun x => 1 + (succ x).length)).sum ≤ l.length * (1 + B) := by
+      intro l
+      induction l with
+      | nil => intro _; simp
+      | cons a l ih =>
+        intro hl
+        have ha := hB a (hl a List.mem_cons_self)
+        have := ih (fun x hx => hl x (List.mem_cons_of_mem _ hx))
+        simp only [List.map_cons, List.sum_cons, List.length_cons]
+        calc 1 + (succ a).length + (l.map (fun x => 1 + (succ x).length)).sum
+            ≤ (1 + B) + l.length * (1 + B) := by omega
+          _ = (l.length + 1) * (1 + B) := by ring
+    exact this _ (fun x hx => (List.mem_filter.mp hx).1)
+  have h2 : (U.filter (fun x => decide (x ∉ vis))).length ≤ U.length := List.length_filter_le _ _
+  have h3 : (U.filter (fun x => decide (x ∉ vis))).length * (1 + B) ≤ U.length * (1 + B) :=
+    Nat.mul_le_mul_right _ h2
+  omega
 
 end Spydr.Hier.Reach
